@@ -2,7 +2,7 @@
 
      Theorem lang_is_spec_eol : forall s : list N,
        latin1 s = true -> clean_lang s = true -> no_directive s = true -> no_pragma s = true ->
-       has_colon_literal s = false -> has_crlf_char s = false ->
+       has_crlf_char s = false ->
        lexemes_lang s = option_map (map norm_eol) (split_spec LangLexer.keywords_2008 s).
 
    i.e. Lex/AgreeLang.v's lang_is_spec without the hypothesis `no_cr s`: the lexemes of vhdl_lang's tokenizer are
@@ -108,14 +108,6 @@ Fixpoint occ (w : list N -> bool) (s : list N) : bool :=
   w s || match s with _ :: r => occ w r | [] => false end.
 Lemma contains_occ : forall p s, contains p s = occ (is_prefix p) s.
 Proof. intros p s. induction s as [|x s IH]; [reflexivity|]. cbn [contains occ]. rewrite IH. reflexivity. Qed.
-Definition win3 (l : list N) : bool :=
-  match l with a :: b :: c :: _ => int_char a && (b =? 58) && letter_or_digit c | _ => false end.
-Lemma hcl_occ : forall s, has_colon_literal s = occ win3 s.
-Proof.
-  induction s as [|a s IH]; [reflexivity|]. destruct s as [|b [|c r]]; try reflexivity.
-  change (has_colon_literal (a :: b :: c :: r)) with (int_char a && (b =? 58) && letter_or_digit c || has_colon_literal (b :: c :: r)).
-  rewrite IH. reflexivity.
-Qed.
 (* a window that holds no line break and is found in the normalised text is in the raw text *)
 Lemma occ_ne : forall (w : list N -> bool),
   (forall s, w (ne false s) = true -> w s = true) -> (forall X, w (10 :: X) = false) -> w [] = false ->
@@ -149,36 +141,14 @@ Proof.
   - intro X. destruct p as [|x p]; [congruence|]. cbn [forallb] in Hp. cbn [is_prefix]. unfold eol in Hp. lia.
   - destruct p; [congruence|reflexivity].
 Qed.
-Lemma win3_ne : forall s, win3 (ne false s) = true -> win3 s = true.
-Proof.
-  intros s H. destruct s as [|a s]; [discriminate|]. destruct (eol a) eqn:Ea.
-  { destruct (ne_eol_false a s Ea) as [X EX]. rewrite EX in H. destruct X as [|b [|c X]]; discriminate. }
-  rewrite (ne_cons false a s Ea) in H. destruct s as [|b s]; [discriminate|]. destruct (eol b) eqn:Eb.
-  { destruct (ne_eol_false b s Eb) as [X EX]. rewrite EX in H. destruct X as [|c X]; [discriminate|].
-    cbn [win3] in H. change (10 =? 58) with false in H. rewrite andb_false_r in H. discriminate. }
-  rewrite (ne_cons false b s Eb) in H. destruct s as [|c s]; [discriminate|]. destruct (eol c) eqn:Ec.
-  { destruct (ne_eol_false c s Ec) as [X EX]. rewrite EX in H. cbn [win3] in H. change (letter_or_digit 10) with false in H.
-    rewrite andb_false_r in H. discriminate. }
-  rewrite (ne_cons false c s Ec) in H. exact H.
-Qed.
-Lemma hcl_ne : forall s, has_colon_literal (ne false s) = true -> has_colon_literal s = true.
-Proof.
-  intros s H. rewrite hcl_occ in *. revert H. apply occ_ne.
-  - exact win3_ne.
-  - intros [|b [|c X]]; reflexivity.
-  - reflexivity.
-Qed.
-
-Lemma good_ne : forall s, latin1 s = true -> no_directive s = true -> no_pragma s = true -> has_colon_literal s = false ->
+Lemma good_ne : forall s, latin1 s = true -> no_directive s = true -> no_pragma s = true ->
   good (ne false s) = true.
 Proof.
-  intros s H1 H2 H3 H5. unfold good.
-  assert (Hc : has_colon_literal (ne false s) = false).
-  { destruct (has_colon_literal (ne false s)) eqn:E; [|reflexivity]. apply hcl_ne in E. congruence. }
+  intros s H1 H2 H3. unfold good.
   assert (Hp : contains VHDL_LS (ne false s) = false).
   { destruct (contains VHDL_LS (ne false s)) eqn:E; [|reflexivity]. apply contains_ne in E; [|discriminate|reflexivity].
     unfold no_pragma in H3. rewrite E in H3. discriminate. }
-  rewrite Hc, Hp, !andb_true_r.
+  rewrite Hp, !andb_true_r.
   assert (Hall : forallb (fun c => (c <? 256) && negb (c =? 96)) (ne false s) = true).
   { apply ne_forallb; [reflexivity|]. unfold latin1, no_directive in *. clear -H1 H2.
     induction s as [|c s IH]; [reflexivity|]. cbn [forallb] in *. apply andb_true_iff in H1, H2.
@@ -193,10 +163,9 @@ Qed.
 (* ------------------------------------------------------------------------------------------ *)
 Theorem lang_is_spec_norm : forall s : list N,
   latin1 s = true -> clean_lang s = true -> no_directive s = true -> no_pragma s = true ->
-  has_colon_literal s = false ->
   lexemes_lang s = split_spec LangLexer.keywords_2008 (ne false s).
 Proof.
-  intros s H1 Hc H2 H3 H5.
+  intros s H1 Hc H2 H3.
   pose proof (split_cdoc s) as HD.
   assert (HF : (length (concat (split_lines s)) < lex_fuel s)%nat).
   { pose proof (split_lines_length s). unfold lex_fuel. lia. }
@@ -769,25 +738,25 @@ Qed.
 
 Theorem lang_is_spec_eol : forall s : list N,
   latin1 s = true -> clean_lang s = true -> no_directive s = true -> no_pragma s = true ->
-  has_colon_literal s = false -> has_crlf_char s = false ->
+  has_crlf_char s = false ->
   lexemes_lang s = option_map (map norm_eol) (split_spec LangLexer.keywords_2008 s).
 Proof.
-  intros s H1 Hc H2 H3 H5 H6. rewrite (lang_is_spec_norm s H1 Hc H2 H3 H5). rewrite <- norm_eol_ne.
+  intros s H1 Hc H2 H3 H6. rewrite (lang_is_spec_norm s H1 Hc H2 H3). rewrite <- norm_eol_ne.
   apply split_spec_ne. exact H6.
 Qed.
 
 (* the hypotheses are satisfiable by a text with CR, CR LF and LF line breaks, inside and between lexemes:
-   a <= 'CR' & "xy" ;CRLF-- cCR/* uCRLFv */ b'('LF') -- dCRLF16#F#CRx"01"CR'CRCR' *)
-Definition lang_is_spec_eol_sample : list N := [97; 32; 60; 61; 32; 39; 13; 39; 32; 38; 32; 34; 120; 121; 34; 32; 59; 13; 10; 45; 45; 32; 99; 13; 47; 42; 32; 117; 13; 10; 118; 32; 42; 47; 32; 98; 39; 40; 39; 10; 39; 41; 32; 45; 45; 32; 100; 13; 10; 49; 54; 35; 70; 35; 13; 120; 34; 48; 49; 34; 13; 39; 13; 13; 39].
+   a <= 'CR' & "xy" ;CRLF-- cCR/* uCRLFv */ b'('LF') -- dCRLF16#F#CRx"01"CR'CRCR' 16:FF:CR0 to 1:= 1CRLF2:CR3 *)
+Definition lang_is_spec_eol_sample : list N := [97; 32; 60; 61; 32; 39; 13; 39; 32; 38; 32; 34; 120; 121; 34; 32; 59; 13; 10; 45; 45; 32; 99; 13; 47; 42; 32; 117; 13; 10; 118; 32; 42; 47; 32; 98; 39; 40; 39; 10; 39; 41; 32; 45; 45; 32; 100; 13; 10; 49; 54; 35; 70; 35; 13; 120; 34; 48; 49; 34; 13; 39; 13; 13; 39; 32; 49; 54; 58; 70; 70; 58; 13; 48; 32; 116; 111; 32; 49; 58; 61; 32; 49; 13; 10; 50; 58; 13; 51].
 Example lang_is_spec_eol_hyps_sat :
   latin1 lang_is_spec_eol_sample && clean_lang lang_is_spec_eol_sample && no_directive lang_is_spec_eol_sample &&
-  no_pragma lang_is_spec_eol_sample && negb (has_colon_literal lang_is_spec_eol_sample) &&
+  no_pragma lang_is_spec_eol_sample && has_colon_literal lang_is_spec_eol_sample &&
   negb (has_crlf_char lang_is_spec_eol_sample) && negb (no_cr lang_is_spec_eol_sample) = true
-  /\ option_map (@length lexeme) (lexemes_lang lang_is_spec_eol_sample) = Some 15%nat.
+  /\ option_map (@length lexeme) (lexemes_lang lang_is_spec_eol_sample) = Some 24%nat.
 Proof. vm_compute. split; reflexivity. Qed.
 
 Check lang_is_spec_eol : forall s : list N,
   latin1 s = true -> clean_lang s = true -> no_directive s = true -> no_pragma s = true ->
-  has_colon_literal s = false -> has_crlf_char s = false ->
+  has_crlf_char s = false ->
   lexemes_lang s = option_map (map norm_eol) (split_spec LangLexer.keywords_2008 s).
 Print Assumptions lang_is_spec_eol.
